@@ -71,6 +71,20 @@ def case_failures(seed):
         dth = abs((th2 - th + 90) % 180 - 90)
         if abs(sx2 - sx) > 1e-3 * sx or abs(sy2 - sy) > 1e-3 * sy or (dth > 0.01 and sx / sy > 1.05):
             out.append(("ellipse_roundtrip", "ellipse (%.3f,%.3f,%.2f) -> sky -> (%.3f,%.3f,%.2f)" % (sx, sy, th, sx2, sy2, th2)))
+    # the result may not depend on how the pixel position is typed: python ints, numpy ints, integer arrays, floats
+    xi, yi = rnd.randint(5, 290), rnd.randint(5, 390)
+    r, th = rnd.uniform(1.2, 9.7), rnd.uniform(-170, 170)
+    sx, sy = rnd.uniform(3.3, 9.9), rnd.uniform(1.1, 3.2)
+    ref_v = helper.pix2sky_vec([float(xi), float(yi)], r, th)
+    ref_e = helper.pix2sky_ellipse([float(xi), float(yi)], sx, sy, th)
+    ref_p = helper.pix2sky([float(xi), float(yi)])
+    for typed in ([xi, yi], (xi, yi), np.array([xi, yi]), [np.int64(xi), np.int64(yi)], np.array([xi, yi], dtype=np.int32)):
+        got_v, got_e, got_p = helper.pix2sky_vec(typed, r, th), helper.pix2sky_ellipse(typed, sx, sy, th), helper.pix2sky(typed)
+        if not (np.allclose(got_v, ref_v, rtol=0, atol=1e-9) and np.allclose(got_e, ref_e, rtol=0, atol=1e-9)
+                and np.allclose(got_p, ref_p, rtol=0, atol=1e-12)):
+            out.append(("pix2sky_vec.conventions", "integer-typed pixel position %r gives %s, the same position as floats gives %s" % (
+                typed, tuple(np.round(got_v, 6)), tuple(np.round(ref_v, 6)))))
+            break
     # consecutive, nearly identical queries must be answered independently; array inputs must not be modified
     x, y = rnd.uniform(1, 300), rnd.uniform(1, 400)
     ra, dec = helper.pix2sky([x, y])
@@ -93,7 +107,7 @@ def case_failures(seed):
     helper.sky2pix(arr); helper.sky2pix_vec(arr, 0.01, 10.0); helper.sky2pix_ellipse(arr, 0.01, 0.005, 10.0)
     if not np.array_equal(arr, keep):
         out.append(("inputs_not_modified", "a sky2pix* call modified the position array it was given"))
-    return out[:4]
+    return out[:5]
 
 
 def crosscheck(p):
